@@ -177,4 +177,41 @@ theorem replicateRequestCore_resolve (n : Node) (op : Nat) (db key value : Bytes
   unfold Node.replicateRequestCore
   simp only []
 
+
+/-! ### the `create-db` line of live replication -/
+
+def createDbLine (name token : Bytes) (st : Strategy) : Bytes := b!"create-db " ++ name ++ [32] ++ token ++ [32] ++ st.toBytes
+
+theorem strategy_roundtrip (st : Strategy) : Strategy.ofBytes (noNl st.toBytes) = st := by cases st <;> decide
+
+/-- **create-db**: the line the primary prints for a new database reads back with the same name, token and
+conflict strategy (the resynchronisation's `create-db <name> <token>` — without the strategy — is the
+recorded finding of C05; this is the LIVE line) -/
+theorem parse_createDbLine (name token : Bytes) (st : Strategy) (hn : 32 ∉ name) (ht : 32 ∉ token) (htnl : 10 ∉ token) :
+    Request.parse (createDbLine name token st) = .ok (.createDb token name st) := by
+  unfold Request.parse
+  have hshape : createDbLine name token st = b!"create-db" ++ 32 :: (name ++ 32 :: (token ++ 32 :: st.toBytes)) := by simp [createDbLine]
+  have hlast : (createDbLine name token st).getLast? ≠ some 59 := by
+    rw [hshape, getLast?_sep, if_neg (by cases st <;> simp [Strategy.toBytes]), getLast?_sep, if_neg (by cases st <;> simp [Strategy.toBytes]),
+      getLast?_sep, if_neg (by cases st <;> simp [Strategy.toBytes])]
+    cases st <;> decide
+  rw [trimEnd_id 59 _ hlast, hshape]
+  rw [splitn_cons 32 1 _ _ (by decide), splitn_cons 32 0 _ _ hn]
+  simp only [splitn]
+  have hcmd : (b!"create-db" = ([] : Bytes)) = False := by simp
+  simp only [hcmd, if_false]
+  unfold parseArgs
+  simp only [List.getElem?_cons_zero, List.getElem?_cons_succ, Option.getD_some]
+  have h2 : splitn 32 2 (token ++ 32 :: st.toBytes) = [token, st.toBytes] := by
+    rw [splitn_cons 32 0 _ _ ht]; simp [splitn]
+  simp (decide := true) only [h2, List.getElem?_cons_zero, List.getElem?_cons_succ, Option.getD_some, if_false, if_true,
+    strategy_roundtrip, noNl, dropByte_id 10 token htnl]
+  rw [show Bytes.dropByte 10 st.toBytes = noNl st.toBytes from rfl, strategy_roundtrip]
+
+theorem replicateRequestCore_createDb (n : Node) (token name : Bytes) (st : Strategy) (sel : Option Bytes) (r : Resp) :
+    n.replicateRequestCore (.createDb token name st) sel r =
+      ((n.replicateWeb (createDbLine name token st)).1, .ok, (n.replicateWeb (createDbLine name token st)).2) := by
+  unfold Node.replicateRequestCore createDbLine
+  simp only []
+
 end Nun
